@@ -171,3 +171,125 @@ Definition hist_lossless_bad (c : hist_case) : bool :=
   let planted := rev (sort_desc (map (fun p => mkFile (fst (fst p)) (snd (fst p)) (snd p)) (hc_planted c))) in
   no_hgc (hc_ops c) &&
   negb (list_eqb Z.eqb (ids_of (last (hc_snaps c) [])) (concat (map f_msgs planted) ++ hlogged (hc_ops c))).
+
+(** * Several loggers sharing one directory *)
+Inductive xop := XLog (lg id len : Z) | XSetMax (m : Z) | XGc (lg bound : Z) | XSnap.
+
+(** what is seen of one program at a snapshot: its files (found by scanning the
+    directory and parsing the names, oldest first) and, for every file the
+    logger's own listLogFiles returned, the index of the program that file
+    belongs to *)
+Definition pview := (list ofile * list Z)%type.
+
+Record multi_case := mkMulti {
+  mc_h : Z;
+  mc_max0 : Z;
+  mc_progs : list (list byte);               (* program names; a logger's index is its position *)
+  mc_planted : list (Z * Z * Z * list Z);    (* files there beforehand: program index, stamp, size, ids *)
+  mc_ops : list xop;
+  mc_snaps : list (list pview);              (* after every XSnap and XGc: one view per program *)
+  mc_fetch : option (list Z)                 (* FetchEntriesFromFiles (main logger = program 0), chronological *)
+}.
+
+Definition prog_name (c : multi_case) (i : Z) : list byte := nth (Z.to_nat i) (mc_progs c) [].
+
+Definition to_mop (c : multi_case) (o : xop) : mop :=
+  match o with
+  | XLog lg id len => MLog (prog_name c lg) model_now model_now id len
+  | XSetMax m => MSetMax m
+  | XGc lg b => MGc (prog_name c lg) b
+  | XSnap => MSnap
+  end.
+
+Fixpoint planted_of (i : Z) (l : list (Z * Z * Z * list Z)) : list lfile :=
+  match l with
+  | [] => []
+  | (j, st, sz, ids) :: tl => if j =? i then mkFile st sz ids :: planted_of i tl else planted_of i tl
+  end.
+
+Fixpoint init_mstate (c : multi_case) (i : Z) (ps : list (list byte)) : mstate :=
+  match ps with
+  | [] => []
+  | p :: tl => (p, init_state (sort_desc (planted_of i (mc_planted c))) (mc_max0 c)) :: init_mstate c (i + 1) tl
+  end.
+
+Fixpoint all_eq (i : Z) (l : list Z) : bool :=
+  match l with [] => true | x :: tl => (x =? i) && all_eq i tl end.
+
+Fixpoint views_eqb (i : Z) (m : list (list (Z * list Z) * Z)) (o : list pview) : bool :=
+  match m, o with
+  | [], [] => true
+  | (fs, n) :: m', (ofs, listed) :: o' =>
+      osnap_eqb fs ofs && all_eq i listed && (Z.of_nat (length listed) =? n) && views_eqb (i + 1) m' o'
+  | _, _ => false
+  end.
+
+Fixpoint msnaps_eqb (m : list (list (list (Z * list Z) * Z))) (o : list (list pview)) : bool :=
+  match m, o with
+  | [], [] => true
+  | x :: m', y :: o' => views_eqb 0 x y && msnaps_eqb m' o'
+  | _, _ => false
+  end.
+
+Definition multi_model_bad (c : multi_case) : bool :=
+  negb (msnaps_eqb (mrun_snaps (mc_h c) (init_mstate c 0 (mc_progs c)) (map (to_mop c) (mc_ops c))) (mc_snaps c)).
+
+(** ** Plain meaning, on the observations only: every logger reads back its own
+    messages exactly once and in order; a logger lists exactly its own program's
+    files; a GC run of one logger obeys [gc_ok] on that logger's files and
+    leaves every file of every other program untouched. *)
+Fixpoint add_pending (i : Z) (id : Z) (p : list (list Z)) : list (list Z) :=
+  match p with
+  | [] => []
+  | x :: tl => if i =? 0 then (x ++ [id]) :: tl else x :: add_pending (i - 1) id tl
+  end.
+
+Definition listing_ok (i : Z) (v : pview) : bool :=
+  all_eq i (snd v) && (length (snd v) =? length (fst v))%nat.
+
+(** [gcl]: index of the logger that ran GC (negative: a plain snapshot) *)
+Fixpoint views_ok (i gcl bound : Z) (prev : list pview) (pend : list (list Z)) (sn : list pview) : bool :=
+  match prev, pend, sn with
+  | [], [], [] => true
+  | pv :: prev', pd :: pend', v :: sn' =>
+      listing_ok i v && stamps_increasing (fst v) &&
+      (if gcl <? 0 then list_eqb Z.eqb (ids_of (fst v)) (ids_of (fst pv) ++ pd)
+       else if gcl =? i then gc_ok bound (fst pv) (fst v)
+       else list_eqb ofile_eqb (fst pv) (fst v)) &&
+      views_ok (i + 1) gcl bound prev' pend' sn'
+  | _, _, _ => false
+  end.
+
+Definition no_pending (p : list (list Z)) : bool := forallb (fun l => match l with [] => true | _ => false end) p.
+
+Fixpoint multi_walk (prev : list pview) (pend : list (list Z)) (ops : list xop) (snaps : list (list pview)) : bool :=
+  match ops with
+  | [] => match snaps with [] => true | _ => false end
+  | XLog lg id _ :: tl => multi_walk prev (add_pending lg id pend) tl snaps
+  | XSetMax _ :: tl => multi_walk prev pend tl snaps
+  | XSnap :: tl =>
+      match snaps with
+      | sn :: stl => views_ok 0 (-1) 0 prev pend sn && multi_walk sn (map (fun _ => []) pend) tl stl
+      | [] => false
+      end
+  | XGc lg b :: tl =>
+      match snaps with
+      | sn :: stl => no_pending pend && views_ok 0 lg b prev pend sn && multi_walk sn pend tl stl
+      | [] => false
+      end
+  end.
+
+Fixpoint init_views (c : multi_case) (i : Z) (ps : list (list byte)) : list pview :=
+  match ps with
+  | [] => []
+  | _ :: tl =>
+      (map (fun f => (f_stamp f, f_size f, f_msgs f)) (rev (sort_desc (planted_of i (mc_planted c)))), @nil Z)
+      :: init_views c (i + 1) tl
+  end.
+
+Definition multi_oracle_bad (c : multi_case) : bool :=
+  negb (multi_walk (init_views c 0 (mc_progs c)) (map (fun _ => []) (mc_progs c)) (mc_ops c) (mc_snaps c)
+        && match mc_fetch c with
+           | Some ids => list_eqb Z.eqb ids (ids_of (fst (hd ([], []) (last (mc_snaps c) []))))
+           | None => true
+           end).
